@@ -280,6 +280,7 @@ pub fn inputs(quick: bool) -> Vec<String> {
     // deep chains: full depth for the termination check only (C18); the semantic check (C07)
     // gets depth <= 3, where the unsolved quantifiers are still cheap to expand
     v.extend(family_h(3));
+    v.extend(family_i());
     v.extend(family_f());
     if quick {
         let ab = family_ab();
@@ -324,7 +325,7 @@ pub fn run(mode: Mode, run: &Run) {
     run.set_extra("inputs_generated", json!(total));
     run.set_extra("windows", json!([GW, GW + 3]));
     if mode == Mode::C07 {
-        run.set_rule("every formula of families A-G (atoms, F_1, all quantifier prefixes over F_1, quantified 3-conjunctions, two-level quantifier shapes, depth-2 trees, rewrite-targeted patterns, translation shapes) x 3 portfolios x 3 strategies x all free-variable assignments over the active set x all interpretations; non-trivial = (formula, portfolio, strategy) whose output differs syntactically from its input, counted by distinct output");
+        run.set_rule("every formula of families A-G and I (capture pressure: defined variables over re-binding quantifiers) (atoms, F_1, all quantifier prefixes over F_1, quantified 3-conjunctions, two-level quantifier shapes, depth-2 trees, rewrite-targeted patterns, translation shapes) x 3 portfolios x 3 strategies x all free-variable assignments over the active set x all interpretations; non-trivial = (formula, portfolio, strategy) whose output differs syntactically from its input, counted by distinct output");
     } else {
         run.set_rule("every formula of families A-G and the deep chains of family H (depth <= 24, thorough 40, every level needing its own pass) x 3 portfolios: fixpoint iteration re-run pass by pass with cycle detection, then the real apply_fixpoint compared and re-applied; non-trivial = distinct number-of-passes/outputs of formulas that changed");
     }
